@@ -3,6 +3,7 @@ import HdVerif.Generated.T8
 import HdVerif.Generated.T8b
 import HdVerif.Generated.T8c
 import HdVerif.Generated.T8d
+import HdVerif.Generated.T8e
 /-! C02: the read side of `highdicom.seg.Segmentation` (`seg/sop.py`).
 
 `Segmentation._get_pixels_by_seg_frame` as written — the validation head, the LABELMAP branch (`need_remap`,
@@ -160,15 +161,19 @@ def isOneToN (segs : List Nat) : Bool := segs == List.range' 1 segs.length
 /-- position of the first occurrence, `np.nonzero(segment_numbers == s)[0][0]` -/
 def firstIdx (segs : List Nat) (s : Nat) : Nat := segs.findIdx (· == s)
 
-/-- the `remapping` table (before the cast to `remap_dtype`): entry `s` for `s ≤ numIn` -/
-def remapEntry (segs : List Nat) (combine relabel : Bool) (bg numIn s : Nat) : Int :=
-  if combine && !relabel then
-    (if s < numIn then (if segs.contains s then (s : Int) else (bg : Int)) else 0)
-  else
-    (if segs.contains s then ((firstIdx segs s + 1 : Nat) : Int) else 0)
+def listMax (l : List Nat) : Nat := l.foldl max 0
 
-def remapTable (segs : List Nat) (combine relabel : Bool) (bg numIn : Nat) (d : DType) : List Int :=
-  (List.range (numIn + 1)).map fun s => castVal d (remapEntry segs combine relabel bg numIn s)
+/-- the `remapping` table: `np.zeros(len, dtype)` filled by the loop of the branch taken — length, dtype and every
+cell come from the translated block (`Gen.remapCell`, T8e); `s in segment_numbers` and
+`np.nonzero(segment_numbers == s)[0][0]` are computed here -/
+def remapTableT (st : Stored) (rq : Req) (d interm : DType) : Except ErrKind (List Int) := do
+  let cell := fun (s : Nat) => remapCell rq.combine rq.relabel d.code interm.code (s : Int)
+    (listMax st.segNums : Int) (st.bg : Int) (rq.segs.contains s) (firstIdx rq.segs s : Int)
+  let (len, dc, _) ← cell 0
+  let rd ← (match DType.ofCode dc with | some x => .ok x | none => .error .type : Except ErrKind DType)
+  (List.range len.toNat).mapM fun s => do
+    let (_, _, e) ← cell s
+    pure (castVal rd e)
 
 /-- numpy fancy indexing `table[v]` with a possibly negative index -/
 def pyIndex (table : List Int) (v : Int) : Except ErrKind Int :=
@@ -188,21 +193,20 @@ def oneHot (d : DType) (n : Nat) (v : Int) : Except ErrKind (List Int) :=
 def transposeTo (n : Nat) (rows : List (List Int)) : List (List Int) :=
   (List.range n).map fun c => rows.map fun r => r.getD c 0
 
-/-- one output frame of the LABELMAP branch after the frames have been read -/
-def labelmapFrame (st : Stored) (rq : Req) (d interm : DType) (needRemap : Bool) (raw : List Int) :
-    Except ErrKind (List Int) := do
-  if needRemap then
-    let numIn := max (st.bg + 1) (st.segNums.foldl max 0 + 1)
-    let table := remapTable rq.segs rq.combine rq.relabel st.bg numIn (if rq.combine then d else interm)
-    raw.mapM (pyIndex table)
-  else .ok raw
+/-- `out_array = remapping[out_array]` for one output frame (`table = none`: no remapping) -/
+def labelmapFrame (table : Option (List Int)) (raw : List Int) : Except ErrKind (List Int) :=
+  match table with
+  | some t => raw.mapM (pyIndex t)
+  | none => .ok raw
 
 def labelmapRead (st : Stored) (rq : Req) (d : DType) : Except ErrKind Out := do
   let (needRemap, ic) ← labelmapDecision false rq.combine rq.relabel d.code rq.segs.length
       (nXor rq.segs st.segNums) (isOneToN rq.segs) st.bitsStored
   let interm ← (match DType.ofCode ic with | some x => .ok x | none => .error .type : Except ErrKind DType)
-  let frames ← rq.keys.mapM fun k =>
-    labelmapFrame st rq d interm needRemap (labelRow interm st.npix (st.frames.filter (fun f => f.key == k)))
+  -- the frames are read first, the table is built once afterwards
+  let raws := rq.keys.map fun k => labelRow interm st.npix (st.frames.filter (fun f => f.key == k))
+  let table ← (if needRemap then some <$> remapTableT st rq d interm else pure none : Except ErrKind (Option (List Int)))
+  let frames ← raws.mapM (labelmapFrame table)
   if rq.combine then .ok (.combined frames)
   else do
     let n := rq.segs.length
@@ -238,8 +242,6 @@ def stackRead (st : Stored) (rq : Req) (d : DType) (willRescale : Bool) : Except
     else pure (.stacked 1 frames)
 
 /-! ### `_get_pixels_by_seg_frame` -/
-
-def listMax (l : List Nat) : Nat := l.foldl max 0
 
 def readCore (st : Stored) (rq : Req) : Except ErrKind Out := do
   if !(rq.segs.all fun s => st.segNums.contains s) then .error .value else
@@ -301,6 +303,17 @@ def labelPixel (nums : List Nat) (chans : List Nat) : Except ErrKind Nat :=
   | none => .error .index
 
 /-! ### specification-level views of a stored object (used by the theorems, not by the code model) -/
+
+/-- closed form of one cell of the remapping table (before the cast), `numIn` = `num_input_segments` -/
+def remapEntry (segs : List Nat) (combine relabel : Bool) (bg numIn s : Nat) : Int :=
+  if combine && !relabel then
+    (if s < numIn then (if segs.contains s then (s : Int) else (bg : Int)) else 0)
+  else
+    (if segs.contains s then ((firstIdx segs s + 1 : Nat) : Int) else 0)
+
+/-- closed form of the remapping table -/
+def remapTable (segs : List Nat) (combine relabel : Bool) (bg numIn : Nat) (d : DType) : List Int :=
+  (List.range (numIn + 1)).map fun s => castVal d (remapEntry segs combine relabel bg numIn s)
 
 /-- the label plane stored for stack value `k` (all zero when the object has no frame for it) -/
 def rawLabels (st : Stored) (k : Nat) : List Nat :=
